@@ -5,7 +5,7 @@
    write for it (C01_Model): SQL bytes and bound values; [render] writes "?" or "$n" for each value.
    [wfb] is the property's domain: every template has as many '?' as arguments (or only @names that
    are all defined), no '$', no digit at its front or right after a '?'. *)
-From Verif Require Import Base C01_Model C01_Stmt C01_Spec C01_Proofs C01_Proofs2 C01_Proofs7 C01_Proofs9 C01_Keys.
+From Verif Require Import Base C01_Model C01_Stmt C01_Spec C01_Proofs C01_Proofs2 C01_Proofs7 C01_Proofs9 C01_Keys C01_ShapeCond.
 
 (* the values reach the driver as bound parameters, in the left-to-right order of the arguments:
    slices one per element, empty slices none (or one NULL right after '('), nil one NULL, []byte one
@@ -67,6 +67,28 @@ Theorem c01_placeholders_numbered_pieces : forall ps,
   placeholders true (render true ps) = nseq (length (vars_of ps)).
 Proof. exact placeholders_numbered. Qed.
 Print Assumptions c01_placeholders_numbered_pieces.
+
+(* Statement.BuildCondition commutes with the erasure of values: conditions GIVEN with the same shape
+   (same template / column / map keys / struct zero-ness / list kinds and lengths / nil-ness, any values)
+   are built into condition trees of the same shape - for every condition form (string, @named,
+   column+value, expression, grouped handle, map, struct, primary keys) *)
+Theorem c01_build_condition_shape : forall q args q' args',
+  shape q = shape q' -> map shape args = map shape args' ->
+  map shape (build_condition q args) = map shape (build_condition q' args').
+Proof. exact build_condition_same_shape. Qed.
+Print Assumptions c01_build_condition_shape.
+
+(* hence the SQL text of a WHERE clause is a function of the shape of the arguments as the caller
+   gave them: no argument value can reach the text through the way a condition is built *)
+Theorem c01_condition_text_from_source_shape : forall numbered e q args q' args',
+  shape q = shape q' -> map shape args = map shape args' ->
+  render numbered (bval numbered e (VWhere (build_condition q args)))
+  = render numbered (bval numbered e (VWhere (build_condition q' args'))).
+Proof.
+  intros numbered e q args q' args' H1 H2. apply text_shape_only. cbn [shape]. f_equal.
+  apply build_condition_same_shape; assumption.
+Qed.
+Print Assumptions c01_condition_text_from_source_shape.
 
 (* primary-key conditions (First(&x, key), Find(&x, k1, k2), Where(key), Delete(&x, keys)), for ALL keys:
    a driver.Valuer that yields a non-nil value (not a []byte), given as the only key, is ONE key
